@@ -21,13 +21,17 @@ def code_of(dt):
 
 def mk(arr):
     _, shape, dt, data = arr
-    return np.array([int(x) for x in data], dtype=NP_DTYPES[int(dt)]).reshape([int(x) for x in shape])
+    vals = [int(x) for x in data]
+    if int(dt) >= 7:
+        # complex leaves: the protocol integer d stands for (d & 7) + (d >> 3) j, so imaginary parts are exercised
+        vals = [complex(d & 7, d >> 3) for d in vals]
+    return np.array(vals, dtype=NP_DTYPES[int(dt)]).reshape([int(x) for x in shape])
 
 
 def enc(a):
     a = np.asarray(a)
     flat = np.ravel(a)
-    vals = [int(v.real) if np.iscomplexobj(flat) else int(v) for v in flat]
+    vals = [int(v.real) + 8 * int(v.imag) if np.iscomplexobj(flat) else int(v) for v in flat]
     return [A('arr'), [int(x) for x in a.shape], code_of(a.dtype), vals]
 
 
